@@ -377,9 +377,14 @@ def gen_cases(ctx: Ctx):
             cases.append(("second_evaluation", {"names": [nm], "n_states": 3, "xmethod": xm, "seed": int(rng.integers(0, 10**6)), "steps": 3, "method": ["AM1", "PM3"][i % 2]}))
     pool = ["h2o", "nh3", "ch2o", "hcn", "hf", "h2s", "co", "ch4"]
     n = 14 if ctx.thorough else 3
+    def _nov(nm_):
+        val = {1: 1, 6: 4, 7: 5, 8: 6, 9: 7, 16: 6, 17: 7}
+        zs = esh.GEOMS[nm_][0]
+        nocc = sum(val[z] for z in zs) // 2
+        return nocc * (sum(1 if z == 1 else 4 for z in zs) - nocc)
     for i in range(n):
         nm = str(rng.choice(pool))
-        cases.append(("eigenpairs", {"names": [nm], "n_states": int(rng.integers(1, 7)), "xmethod": ["cis", "rpa"][i % 2], "method": ["AM1", "PM3", "MNDO"][i % 3],
+        cases.append(("eigenpairs", {"names": [nm], "n_states": min(int(rng.integers(1, 7)), _nov(nm)), "xmethod": ["cis", "rpa"][i % 2], "method": ["AM1", "PM3", "MNDO"][i % 3],
                                      "tolerance": float(rng.choice([1e-6, 1e-8])), "check_rpa_le_cis": i % 2 == 0, "check_apb": i % 3 == 0}))
     for i in range(4 if ctx.thorough else 2):
         cases.append(("guess_independence", {"name": str(rng.choice(["h2o", "ch2o", "nh3"])), "n_states": int(rng.integers(2, 5)), "seed": int(rng.integers(0, 10**6)), "xmethod": ["cis", "rpa"][i % 2]}))
